@@ -5,7 +5,7 @@ import "github.com/gopher-fleece/runtime"
 // AlphaBody is the request body of the alpha controller
 type AlphaBody struct {
 	// The name
-	Name string `json:"name" validate:"required"`
+	Name string `json:"name" validate:"required,min=2,max=40"`
 	Rank Rank   `json:"rank"`
 }
 
@@ -19,7 +19,7 @@ const (
 )
 
 // @Tag(Alpha)
-// @Route(/alpha/)
+// @Route(/alpha//)
 // @Security(schemeA, { scopes: ["read"] })
 // @Description Alpha controller
 type AlphaController struct {
